@@ -54,6 +54,44 @@ Proof.
   change (tok_PING =? tok_PING) with true. cbv iota. reflexivity.
 Qed.
 
+(* the CLOSE count is checked: a CLOSE whose number is not the number of the OPEN that created the innermost unslicer (the root
+   has none) is "lost sync" -- the connection is abandoned, nothing is closed.  (Kills the mutant of opt_is that ignores the count.) *)
+Theorem unsl_close_count_checked c n top rest : u_stack fr c = top :: rest -> uf_open fr top <> Some n ->
+  uhandle_close c n = UFatal fr (ufatal 0).
+Proof.
+  intros Es NE. unfold Unsl.uhandle_close. rewrite Es.
+  assert (X : opt_is (uf_open fr top) n = false).
+  { unfold opt_is. destruct (uf_open fr top) as [m|]; [|reflexivity]. destruct (Z.eqb_spec m n); [subst; exfalso; apply NE; reflexivity|reflexivity]. }
+  rewrite X. reflexivity.
+Qed.
+
+(* ... at token level: nothing being discarded, no index phase pending *)
+Theorem unsl_close_token_count_checked c n top rest : existsb (Z.eqb tok_CLOSE) hd_exempt = true ->
+  u_discard fr c = 0 -> u_inOpen fr c = false -> u_stack fr c = top :: rest -> uf_open fr top <> Some n ->
+  utok_apply c tok_CLOSE n [] = UFatal fr (ufatal 0).
+Proof.
+  intros HE D IO Es NE. unfold Unsl.utok_apply. change (has_body tok_CLOSE) with false. cbv iota.
+  unfold Unsl.ustep_nobody_hr. change (tok_CLOSE =? tok_OPEN) with false. cbn [andb]. rewrite HE, orb_true_r.
+  change (tok_CLOSE =? tok_CLOSE) with true. cbv iota. rewrite IO, D. unfold hd_close_fatal. cbn [andb Z.ltb Z.compare].
+  rewrite (unsl_close_count_checked c n top rest Es NE). reflexivity.
+Qed.
+
+(* and the matching CLOSE is not "lost sync": it reaches receiveClose *)
+Theorem unsl_close_matching c n top rest : u_stack fr c = top :: rest -> uf_open fr top = Some n ->
+  uhandle_close c n =
+  match u_close (uf_st fr top) with
+  | OViol => uhandle_violation c false true
+  | OBanana => UFatal fr (ufatal 0)
+  | OExc k => UFatal fr (ufatal k)
+  | OOk obj => match u_finish (uf_st fr top) with
+               | OViol => uhandle_violation c false true
+               | OBanana => UFatal fr (ufatal 0)
+               | OExc k => UFatal fr (ufatal k)
+               | OOk _ => uhandle_token (uw_stack fr c (u_discard fr c) rest) obj
+               end
+  end.
+Proof. intros Es EO. unfold Unsl.uhandle_close. rewrite Es, EO. unfold opt_is. rewrite Z.eqb_refl. reflexivity. Qed.
+
 (* (2) *)
 Definition set3 (c : uctx) (o : list (list Z)) (a b : Z) : uctx :=
   {| u_discard := u_discard fr c; u_inOpen := u_inOpen fr c; u_opentype := o; u_stack := u_stack fr c; u_objctr := u_objctr fr c;
